@@ -3,7 +3,7 @@
 From Coq Require Import Reals Lra Lia ZArith List Bool.
 From GS Require Import Num Loops Estimator_gen C13_RInst C13_Model.
 Import ListNotations.
-Open Scope R_scope.
+Local Open Scope R_scope.
 
 Ltac rsimp := cbn [nadd nsub nmul ndiv nneg nabs nsqrt ncos nsin nasin natan2 npow nltb nleb n0 n1 npi nofZ
                    Rops Rops_with nlit] in *.
@@ -30,19 +30,19 @@ Lemma clamp_id lo hi x : lo <= x <= hi -> Rmax (Rmin x hi) lo = x.
 Proof. intros H. rewrite Rmin_left by lra. rewrite Rmax_left by lra. reflexivity. Qed.
 
 (* ---------- the three Cartesian coordinates *)
-Definition X r la lo := r * cos (la * (PI / 180)) * cos (lo * (PI / 180)).
-Definition Y r la lo := r * cos (la * (PI / 180)) * sin (lo * (PI / 180)).
-Definition Z r la := r * sin (la * (PI / 180)) * 1.
+Definition cX r la lo := r * cos (la * (PI / 180)) * cos (lo * (PI / 180)).
+Definition cY r la lo := r * cos (la * (PI / 180)) * sin (lo * (PI / 180)).
+Definition cZ r la := r * sin (la * (PI / 180)) * 1.
 
 Lemma latlon2pos_R ora r temporal ts la lo rest :
   latlon2pos (Rops_with ora) r temporal ts (la :: lo :: rest)
-  = [X r la lo; Y r la lo; Z r la] ++ (if temporal then [aget 0 rest 0 / ts] else []).
+  = [cX r la lo; cY r la lo; cZ r la] ++ (if temporal then [aget 0 rest 0 / ts] else []).
 Proof. unfold latlon2pos. destruct temporal; reflexivity. Qed.
 
 (* C13_on_sphere *)
-Lemma on_sphere_xyz r la lo : X r la lo * X r la lo + Y r la lo * Y r la lo + Z r la * Z r la = r * r.
+Lemma on_sphere_xyz r la lo : cX r la lo * cX r la lo + cY r la lo * cY r la lo + cZ r la * cZ r la = r * r.
 Proof.
-  unfold X, Y, Z. pose proof (cs1 (la * (PI / 180))) as H1. pose proof (cs1 (lo * (PI / 180))) as H2.
+  unfold cX, cY, cZ. pose proof (cs1 (la * (PI / 180))) as H1. pose proof (cs1 (lo * (PI / 180))) as H2.
   set (c := cos (la * (PI / 180))) in *. set (s := sin (la * (PI / 180))) in *.
   set (cl := cos (lo * (PI / 180))) in *. set (sl := sin (lo * (PI / 180))) in *.
   replace (r * c * cl * (r * c * cl) + r * c * sl * (r * c * sl) + r * s * 1 * (r * s * 1))
@@ -105,9 +105,11 @@ Section Poly.
   Lemma hav_arg_range : 0 <= hav_arg p1 l1 p2 l2 <= 1.
   Proof.
     pose proof unit_chord as Hc. pose proof unit_antichord as Ha.
-    split; [apply Rmult_le_reg_l with 4; [lra|] | apply Rmult_le_reg_l with 4; [lra|]].
-    - rewrite <- Hc. nra.
-    - assert (0 <= 4 * (1 - hav_arg p1 l1 p2 l2)) by (rewrite <- Ha; nra). lra.
+    assert (Sq : forall u v w : R, 0 <= u * u + v * v + w * w).
+    { intros u v w. pose proof (Rle_0_sqr u). pose proof (Rle_0_sqr v). pose proof (Rle_0_sqr w). unfold Rsqr in *. lra. }
+    pose proof (Sq (c1 * cl1 - c2 * cl2) (c1 * sl1 - c2 * sl2) (s1 - s2)) as S1. rewrite Hc in S1.
+    pose proof (Sq (c1 * cl1 + c2 * cl2) (c1 * sl1 + c2 * sl2) (s1 + s2)) as S2. rewrite Ha in S2.
+    lra.
   Qed.
 End Poly.
 
@@ -120,7 +122,9 @@ Theorem chord_sq_haversine ora r la1 lo1 la2 lo2 :
 Proof.
   rewrite !latlon2pos_R. unfold sqdist. cbn [app combine fold_left fst snd]. rsimp.
   pose proof (unit_chord (d2r la1) (d2r lo1) (d2r la2) (d2r lo2)) as H. unfold d2r in *.
-  unfold X, Y, Z. rewrite Rmult_assoc, (Rmult_comm (r * r)), <- H. ring.
+  replace (4 * (r * r) * hav_arg (la1 * (PI / 180)) (lo1 * (PI / 180)) (la2 * (PI / 180)) (lo2 * (PI / 180)))
+    with (r * r * (4 * hav_arg (la1 * (PI / 180)) (lo1 * (PI / 180)) (la2 * (PI / 180)) (lo2 * (PI / 180)))) by ring.
+  rewrite <- H. unfold cX, cY, cZ. ring.
 Qed.
 
 (* the translated kernel at the real instance *)
@@ -146,8 +150,9 @@ Proof.
   assert (Hs1 : sqrt a <= 1). { rewrite <- sqrt_1. apply sqrt_le_1_alt; lra. }
   split; [reflexivity|]. split.
   - pose proof (asin_bound (sqrt a)). assert (0 <= asin (sqrt a)).
-    { destruct (Req_dec (sqrt a) 0) as [->|Hn]; [rewrite asin_0; lra|].
-      rewrite <- asin_0. left. apply asin_increasing; lra. }
+    { destruct (Rle_dec 0 (asin (sqrt a))) as [|Hn]; auto. exfalso.
+      assert (Hneg : sin (asin (sqrt a)) < 0) by (apply sin_lt_0_var; pose proof PI_RGT_0; lra).
+      rewrite sin_asin in Hneg by lra. lra. }
     lra.
   - replace (2 * asin (sqrt a) / 2) with (asin (sqrt a)) by field. apply sin_asin; lra.
 Qed.
@@ -252,8 +257,8 @@ Proof.
   rewrite Hc.
   destruct (Ratan2_polar y x) as [[Hx Hy]|[Hx Hy]].
   - f_equal; [|f_equal; [|f_equal]].
-    + rewrite Hx at 3. field; lra.
-    + rewrite Hy at 3. field; lra.
+    + transitivity (sqrt (x * x + y * y) * cos (Ratan2 y x)); [field; lra | symmetry; exact Hx].
+    + transitivity (sqrt (x * x + y * y) * sin (Ratan2 y x)); [field; lra | symmetry; exact Hy].
     + field; lra.
   - subst x y. replace (0 * 0 + 0 * 0) with 0 by ring. rewrite sqrt_0.
     f_equal; [|f_equal; [|f_equal]]; field; lra.
@@ -263,8 +268,14 @@ Theorem pos_latlon_pos_time ora r ts x y z t : 0 < r -> ts <> 0 -> x * x + y * y
   latlon2pos (Rops_with ora) r true ts (pos2latlon (Rops_with ora) r true ts [x; y; z; t]) = [x; y; z; t].
 Proof.
   intros Hr Hts Hs. pose proof (pos_latlon_pos ora r x y z Hr Hs) as H.
-  unfold pos2latlon, latlon2pos in *. cbn [app aget nth] in *.
-  injection H as H1 H2 H3. rewrite H1, H2, H3. f_equal. f_equal. f_equal. f_equal. rsimp. field; auto.
+  assert (E1 : pos2latlon (Rops_with ora) r true ts [x; y; z; t]
+               = pos2latlon (Rops_with ora) r false 1 [x; y; z] ++ [t * ts]) by reflexivity.
+  rewrite E1. remember (pos2latlon (Rops_with ora) r false 1 [x; y; z]) as q eqn:Eq.
+  assert (Hq : exists A B, q = [A; B]) by (rewrite Eq; unfold pos2latlon; cbn [app]; eauto).
+  destruct Hq as (A & B & ->). cbn [app].
+  assert (E2 : latlon2pos (Rops_with ora) r true ts [A; B; t * ts]
+               = latlon2pos (Rops_with ora) r false 1 [A; B] ++ [t * ts / ts]) by reflexivity.
+  rewrite E2, H. cbn [app]. do 4 f_equal. field; auto.
 Qed.
 
 (* C13_latlon_pos_latlon : identity for lat in (-90, 90), lon in (-180, 180] *)
@@ -304,7 +315,7 @@ Qed.
 Theorem pole_longitude_lost ora r lo lo' :
   latlon2pos (Rops_with ora) r false 1 [90; lo] = latlon2pos (Rops_with ora) r false 1 [90; lo'].
 Proof.
-  rewrite !latlon2pos_R. unfold X, Y, Z. replace (90 * (PI / 180)) with (PI / 2) by field.
+  rewrite !latlon2pos_R. unfold cX, cY, cZ. replace (90 * (PI / 180)) with (PI / 2) by field.
   rewrite cos_PI2. cbn [app]. f_equal; [ring | f_equal; ring].
 Qed.
 
@@ -312,21 +323,16 @@ Qed.
 Theorem longitude_periodic ora r la lo (k : Z) :
   latlon2pos (Rops_with ora) r false 1 [la; lo + 360 * IZR k] = latlon2pos (Rops_with ora) r false 1 [la; lo].
 Proof.
-  rewrite !latlon2pos_R. unfold X, Y.
+  rewrite !latlon2pos_R. unfold cX, cY.
   replace ((lo + 360 * IZR k) * (PI / 180)) with (lo * (PI / 180) + 2 * IZR k * PI) by field.
   assert (Hc : forall x z, cos (x + 2 * IZR z * PI) = cos x /\ sin (x + 2 * IZR z * PI) = sin x).
   { intros x z. rewrite cos_plus, sin_plus.
     assert (Hs : sin (2 * IZR z * PI) = 0).
     { apply sin_eq_0_1. exists (2 * z)%Z. rewrite mult_IZR. simpl. ring. }
     assert (Hco : cos (2 * IZR z * PI) = 1).
-    { destruct z as [|p|p].
-      - simpl. replace (2 * 0 * PI) with 0 by ring. apply cos_0.
-      - rewrite <- positive_nat_Z, <- INR_IZR_INZ. replace (2 * INR (Pos.to_nat p) * PI) with (0 + 2 * INR (Pos.to_nat p) * PI) by ring.
-        rewrite cos_period. apply cos_0.
-      - change (Z.neg p) with (- Z.pos p)%Z. rewrite opp_IZR. replace (2 * - IZR (Z.pos p) * PI) with (- (2 * IZR (Z.pos p) * PI)) by ring.
-        rewrite cos_neg. rewrite <- positive_nat_Z, <- INR_IZR_INZ.
-        replace (2 * INR (Pos.to_nat p) * PI) with (0 + 2 * INR (Pos.to_nat p) * PI) by ring.
-        rewrite cos_period. apply cos_0. }
+    { replace (2 * IZR z * PI) with (2 * (IZR z * PI)) by ring. rewrite cos_2a_sin.
+      assert (Hz : sin (IZR z * PI) = 0) by (apply sin_eq_0_1; exists z; reflexivity).
+      rewrite Hz. ring. }
     rewrite Hs, Hco. split; ring. }
   destruct (Hc (lo * (PI / 180)) k) as [-> ->]. reflexivity.
 Qed.
